@@ -119,6 +119,8 @@ type outcome struct {
 	msgs    int
 }
 
+var lastRunOK bool // whether the last run's synchronize call returned without error
+
 var envOnce sync.Once
 var sharedEnv *seam.Env
 
@@ -199,6 +201,7 @@ func run(c *Case) (viol []string, sig string, msgs int) {
 		out.updates, out.err = vp.Synchronize(context.Background(), pods, ctrs)
 	}()
 	msgs = tr.msgs
+	lastRunOK = out.err == nil && out.panicV == ""
 
 	add := func(kind, f string, a ...any) {
 		viol = append(viol, fmt.Sprintf(f, a...))
@@ -422,6 +425,13 @@ func main() {
 			os.Exit(1)
 		}
 		fmt.Println("no violation")
+		return
+	}
+	if f.Engine == "full" {
+		res.Engine = "syncx/full"
+		res.Rule = "real multi-MiB runtime states through socket, mux, ttrpc and the real accept loop; each compared with the transport seam's prediction; failed synchronisations followed by a re-registration of the same stub"
+		engineFull(f, res)
+		res.Write(f)
 		return
 	}
 	multi := int64(0)
